@@ -85,6 +85,7 @@ fn cmd_check(args: &[String]) -> i32 {
         return 2;
     };
     let thorough = env_tier(args);
+    DEEP.store(thorough, std::sync::atomic::Ordering::Relaxed);
     let seed = env_seed(args);
     let nworkers = workers(args);
     let runs_override = arg_val(args, "--runs").and_then(|s| s.parse().ok());
@@ -137,7 +138,7 @@ fn cmd_check(args: &[String]) -> i32 {
             let tape_out = if hash == 0 { f.tape.clone() } else { min };
             let rj = json!({
                 "property": v.prop, "oracle": v.oracle, "message": v.msg, "engine": part.engine.name, "mode": part.mode,
-                "focus": check.prop, "seed": seed, "part": pi, "run": f.run, "tape": tape_out, "tape_original_len": orig_len,
+                "focus": check.prop, "deep": thorough, "seed": seed, "part": pi, "run": f.run, "tape": tape_out, "tape_original_len": orig_len,
                 "shrink_attempts": attempts, "event_hash": format!("{hash:016x}"), "trace": trace, "repo_head": repo_head(),
             });
             let path = write_replay(&rj, check.prop, seed, f.run);
@@ -239,6 +240,7 @@ fn cmd_replay(args: &[String]) -> i32 {
         eprintln!("replay: engine {ename} mode {mode} is not part of {focus}");
         return 2;
     };
+    DEEP.store(v["deep"].as_bool().unwrap_or(false), std::sync::atomic::Ordering::Relaxed);
     // Replays show known findings as the violations they are.
     let _ = KNOWN.set(std::sync::Arc::new(Vec::new()));
     // A replayed run may hang inside the code under test (that is what a "hang" replay is):
